@@ -213,3 +213,12 @@ def _parse(out, res):
             and "is violated" not in out:
         m = re.search(r"Error: ([^\n]*(?:\n[^\n]*){0,6})", out)
         res.error = "tlc error: " + (m.group(1) if m else "?")
+
+
+def liveness_cfg(cfg, prop="Terminates", spec="Spec"):
+    """Turn a safety configuration into `SPECIFICATION Spec` + one temporal property (no emission)."""
+    c = {k: v for k, v in cfg.items() if k in ("CONSTANTS", "DEFS", "SUBST")}
+    c["SPECIFICATION"] = spec
+    c["PROPERTIES"] = [prop]
+    c["INVARIANTS"] = []
+    return c
